@@ -142,6 +142,15 @@ impl Model {
         )
     }
 
+    pub fn snapshot_with_refresh(&self, refresh: Option<rpki::repository::x509::Time>) -> PayloadSnapshot {
+        PayloadSnapshot::new(
+            self.origins.iter().map(|o| (*o, info())),
+            self.keys.iter().map(|k| (k.clone(), info())),
+            self.aspas.iter().map(|(c, p)| (Aspa::new(*c, p.clone()), info())),
+            refresh,
+        )
+    }
+
     pub fn from_snapshot(s: &PayloadSnapshot) -> Self {
         let mut m = Model::default();
         for (o, _) in s.origins() { m.origins.insert(o); }
